@@ -228,8 +228,8 @@ func (c *ctx) gauges() {
 				}
 				chk("handle_handlers", inv)
 				chk("sessions_active", sess)
-				_ = served
-				_ = alive
+				chk("serve_accepted", served)
+				chk("waitgroup_handle_routines_active", alive)
 			}
 		}
 	}
